@@ -537,6 +537,10 @@ def build_python(spec, pool=None):
 
     def edge(e):
         a = {k: v for k, v in e[2].items() if v is not None and k in ('weight', 'delay', 'spread')}
+        if e[2].get('f32'):
+            # delay and spread handed over in single precision (numpy float32 scalars, e.g. elements of a float32 array)
+            import numpy as np
+            a = {k: (np.float32(v) if k in ('delay', 'spread') else v) for k, v in a.items()}
         if e[2].get('et'):
             et = spec['ets'][e[2]['et']]
             pre = f"{et['name']}/{et['opname']}"
